@@ -40,6 +40,13 @@ C["C13"] = ("Coq theorems for an abstract compressor (any comp/decomp with decom
             "locally. Tie: tables regenerated each run; operation sequences (config changes, all nine write commands, forced MOVED, reads) through the real handlers/filter/hooks against a fake "
             "store, compared with the extracted model fed snappy's real output, with a no-compression model (the property's oracle), a stored-bytes oracle, and a concurrent-writers run.",
             "snappy itself is not modelled; values starting with the header are excluded as the property states.", "DESIGN.md §4 C13")
+C["C11"] = ("Coq theorems: for every byte stream and every reader the decoder's recursion depth is bounded by the regenerated nesting limit (beyond maxArrayDepth-d+1 units of fuel more fuel "
+            "changes nothing) and decoding is the same function of the bytes under every chunking (malformed streams included); whatever a backend replies, the request is completed or "
+            "re-sent (never an out-of-range index, never dropped); CLUSTER NODES parsing never dereferences nil and expands at most 16384 slots per token; SCAN reply rewriting never indexes "
+            "an empty array. Tie: limits regenerated; decoder, handleResp/handleRedirection, parseClusterNodes + the real doSlotsRefresh, and the SCAN hook run on malformed inputs under "
+            "recover() against the extracted models; four depth probes (3M nested arrays / empty lines ...) decoded in a child process with a 48 MB stack cap.",
+            "Go stack/heap/scheduler are runtime facts (the theorems bound the model's counters); inline commands and simple strings have no length limit in the code (line length is not bounded).",
+            "DESIGN.md §4 C11")
 checks = []
 for pid in sorted(C):
     text, note, ref = C[pid]
